@@ -143,3 +143,13 @@ package server
 //@ func init$1
 //@   modifies nothing
 //@   ensures[C01,C16:pool-buffers-have-full-capacity] typeis(ret, *[]byte) && ret.(*[]byte) != nil && cap(*ret.(*[]byte)) >= 65536
+
+// C13: every listener that is started is given exactly the handler slices LoadPlugins returned
+// (DHCPv6 listeners the DHCPv6 handlers, DHCPv4 listeners the DHCPv4 handlers)
+//@ func Start
+//@   requires config != nil
+// (RegisterPlugin dereferences the plugin before it stores it: registry entries are never nil)
+//@   requires forall k string: has(plugins.RegisteredPlugins, k) ==> plugins.RegisteredPlugins[k] != nil
+//@   modifies everything
+//@   assert[C13:listener-gets-the-loaded-handlers] before "append(srv.listeners, l6)": l6 != nil && l6.handlers == handlers6
+//@   assert[C13:listener-gets-the-loaded-handlers] before "append(srv.listeners, l4)": l4 != nil && l4.handlers == handlers4
